@@ -1,8 +1,145 @@
-(* C10 -- ASCII armor is a faithful, checksummed, correctly labelled envelope.  Statements only. *)
+(* C10 -- ASCII armor is a faithful, checksummed, correctly labelled envelope.
+   This file holds statements only; every proof is `exact <lemma>` into Proofs/ (or a closed computation
+   on a concrete witness). *)
 From Coq Require Import ZArith List Bool.
 Import ListNotations.
-Require Import PV.Lib.Bytes PV.Model.Armor PV.Spec.Rfc4880_armor.
+Require Import PV.Lib.Bytes PV.Model.Armor PV.Spec.Rfc4880_armor
+  PV.Proofs.Armor_lemmas PV.Proofs.Armor_lemmas2 PV.Proofs.Armor_lemmas3.
 Open Scope Z_scope.
 
-Example C10_smoke : b64_dec (b64_enc [1; 2; 3; 4]) = Some [1; 2; 3; 4].
+(* ---- radix-64 ---- *)
+(* every octet string decodes back (Python's non-strict a2b_base64 state machine run on b64encode's output) *)
+Theorem C10_b64_roundtrip : forall p, wf_bytes p -> b64_dec (b64_enc p) = Some p.
+Proof. exact b64_roundtrip. Qed.
+Print Assumptions C10_b64_roundtrip.
+
+Theorem C10_b64_alphabet : forall p, wf_bytes p -> forallb (fun c => is_b64c c || (c =? 61)) (b64_enc p) = true.
+Proof. exact b64_alphabet. Qed.
+Print Assumptions C10_b64_alphabet.
+
+(* the encoder is the RFC 4880 6.3 encoding (24-bit groups, table lookup, = padding) *)
+Theorem C10_b64_enc_eq_rfc : forall p, wf_bytes p -> b64_enc p = rfc_b64_enc p.
+Proof. exact b64_enc_eq_rfc. Qed.
+Print Assumptions C10_b64_enc_eq_rfc.
+
+(* characters outside the alphabet (line ends, blanks) never change what is decoded *)
+Theorem C10_b64_dec_skips_foreign : forall s, b64_dec (filter (fun c => is_b64c c || (c =? 61)) s) = b64_dec s.
+Proof. intros s. exact (a2b_skip s 0%nat 0 0%nat). Qed.
+Print Assumptions C10_b64_dec_skips_foreign.
+
+(* ---- line wrap ---- *)
+Theorem C10_wrap_line_le_64 : forall s, Forall (fun l => (length l <= 64)%nat) (wrap s).
+Proof. exact wrap_line_le_64. Qed.
+Print Assumptions C10_wrap_line_le_64.
+
+Theorem C10_wrap_lines_within_rfc_limit : forall s, Forall (fun l => (length l <= rfc_max_line)%nat) (wrap s).
+Proof. intros s. eapply Forall_impl; [|exact (wrap_line_le_64 s)]. cbn. intros l H. unfold rfc_max_line. apply (Nat.le_trans _ 64); [exact H|]. repeat constructor. Qed.
+Print Assumptions C10_wrap_lines_within_rfc_limit.
+
+Theorem C10_wrap_concat : forall s, concat (wrap s) = s.
+Proof. exact wrap_concat. Qed.
+Print Assumptions C10_wrap_concat.
+
+(* every body line is itself the radix-64 text of a 48-octet piece of the payload *)
+Theorem C10_wrap_b64 : forall p, wrap (b64_enc p) = map b64_enc (chunks (length p) 48 p).
+Proof. exact wrap_b64. Qed.
+Print Assumptions C10_wrap_b64.
+
+(* ---- CRC-24 ---- *)
+(* PGPy masks only at the end; the RFC's crc24 is a 24-bit quantity.  Equal for every octet string. *)
+Theorem C10_crc24_eq_rfc : forall d, wf_bytes d -> crc24 d = crc24_rfc d.
+Proof. exact crc24_eq_rfc. Qed.
+Print Assumptions C10_crc24_eq_rfc.
+
+(* the invariant behind it: the unmasked accumulator never leaves 24 bits, the final mask is the identity *)
+Theorem C10_crc24_unmasked : forall d, wf_bytes d -> crc24 d = fold_left crc_octet d 11994318.
+Proof. exact crc24_unmasked. Qed.
+Print Assumptions C10_crc24_unmasked.
+
+Theorem C10_crc24_lt_2_24 : forall d, 0 <= crc24 d < 16777216.
+Proof. exact crc24_lt_2_24. Qed.
+Print Assumptions C10_crc24_lt_2_24.
+
+(* ---- reader on writer ---- *)
+(* str(x) read by ascii_unarmor: the label, the headers, exactly the payload, its CRC, no warning *)
+Theorem C10_unarmor_armor : forall k h p, wf_magic k = true -> wf_headers h -> wf_bytes p -> p <> [] ->
+  unarmor (armor k h p) = UArmor k (headers_opt h) p (crc24 p) false None.
+Proof. exact unarmor_armor. Qed.
+Print Assumptions C10_unarmor_armor.
+
+(* the same text with every LF turned into CR LF *)
+Theorem C10_unarmor_armor_crlf : forall k h p, wf_magic k = true -> wf_headers h -> wf_bytes p -> p <> [] ->
+  unarmor (to_crlf (armor k h p)) = UArmor k (headers_opt h) p (crc24 p) false None.
+Proof. exact unarmor_armor_crlf. Qed.
+Print Assumptions C10_unarmor_armor_crlf.
+
+(* LF or CR LF line ends, any lines of foreign text in front (none of which opens a block), any ASCII text behind *)
+Theorem C10_unarmor_armor_embedded : forall k h p eol, is_eol eol -> wf_magic k = true -> wf_headers h -> wf_bytes p -> p <> [] ->
+  forall pre post,
+  Forall (fun l => forallb line_char l = true /\ nostart l = true) pre -> is_ascii_text post = true ->
+  unarmor (concat (map (fun l => l ++ [10]) pre) ++ with_eol eol (armor_lines k h p) ++ post)
+  = UArmor k (headers_opt h) p (crc24 p) false None.
+Proof. exact unarmor_armor_embedded. Qed.
+Print Assumptions C10_unarmor_armor_embedded.
+
+Theorem C10_armor_is_its_lines : forall k h p, p <> [] -> armor k h p = with_eol [] (armor_lines k h p).
+Proof. exact armor_eq_lines. Qed.
+Print Assumptions C10_armor_is_its_lines.
+
+(* the premises are satisfiable: every real kind, header pairs with spaces, colons and a tab *)
+Example C10_premises_magic : forallb wf_magic [m_public; m_private; m_message; m_signature] = true.
 Proof. reflexivity. Qed.
+Example C10_premises_headers : wf_headers [([86; 101; 114], [80; 71; 80; 32; 49]); ([67], [97; 58; 98; 9; 99])].
+Proof. split; [reflexivity|]. repeat constructor; cbn; intuition discriminate. Qed.
+Example C10_premises_embedded :
+  Forall (fun l => forallb line_char l = true /\ nostart l = true) [[70; 114; 111; 109; 58; 32; 120; 13]; []; [45; 45; 45; 45; 45]].
+Proof. repeat constructor. Qed.
+
+(* header pairs outside wf_headers do not read back as written: a value containing ": " is split at its
+   last ": " (the key group of the header expression is greedy) *)
+Theorem C10_headers_refuted : exists k h p, wf_magic k = true /\ wf_bytes p /\ p <> [] /\
+  unarmor (armor k h p) <> UArmor k (headers_opt h) p (crc24 p) false None.
+Proof.
+  exists m_message, [([67], [78; 58; 32; 120])], [1; 2; 3].
+  split; [reflexivity|]. split; [repeat constructor; cbn; intuition discriminate|]. split; [discriminate|].
+  vm_compute. discriminate.
+Qed.
+
+(* ---- checksum report ---- *)
+Theorem C10_crc_flag_iff : forall t m h body crc warn c,
+  unarmor t = UArmor m h body crc warn c -> (warn = true <-> crc24 body <> crc).
+Proof. exact crc_flag_iff. Qed.
+Print Assumptions C10_crc_flag_iff.
+
+(* a block whose CRC line was altered is reported: concrete block, CRC character changed *)
+Example C10_crc_mismatch_reported :
+  exists body crc, unarmor (begin_pfx ++ m_message ++ dash5 ++ [10; 10] ++ b64_enc [1; 2; 3] ++ [10; 61] ++ [65; 65; 65; 65] ++ [10]
+                            ++ end_pfx ++ m_message ++ dash5 ++ [10]) = UArmor m_message None body crc true None.
+Proof. eexists. eexists. vm_compute. reflexivity. Qed.
+
+Theorem C10_unarmor_binary : forall t, is_ascii_text t = false -> unarmor t = UBinary t.
+Proof. exact unarmor_binary. Qed.
+Print Assumptions C10_unarmor_binary.
+
+(* ---- kinds ---- *)
+Theorem C10_right_kind_accepted : forall k, rejected (parse_decision (class_of k) (Some (magic_of k)) (is_clear k)) = false.
+Proof. exact right_kind_accepted. Qed.
+Print Assumptions C10_right_kind_accepted.
+
+(* a block offered to a class of another kind is refused; the one exception is named: the SIGNATURE block that
+   ends a cleartext message is a signature block and loads as a PGPSignature *)
+Theorem C10_wrong_kind_rejected : forall k c, cls_eqb c (class_of k) = false ->
+  (k = KCleartext /\ c = ClsSignature) \/ rejected (parse_decision c (Some (magic_of k)) (is_clear k)) = true.
+Proof. exact wrong_kind_rejected. Qed.
+Print Assumptions C10_wrong_kind_rejected.
+
+Theorem C10_armor_label_matches_kind :
+  magic_of KPublicKey = rfc_label RPublicKeyBlock /\ magic_of KPrivateKey = rfc_label RPrivateKeyBlock /\
+  magic_of KMessage = rfc_label RMessage /\ magic_of KSignature = rfc_label RSignature /\
+  magic_of KCleartext = rfc_label RSignature.
+Proof. repeat split; reflexivity. Qed.
+
+Theorem C10_armor_first_last_line : forall k h p, exists mid,
+  armor k h p = (begin_pfx ++ k ++ dash5 ++ [10]) ++ mid ++ (end_pfx ++ k ++ dash5 ++ [10]).
+Proof. exact armor_first_last_line. Qed.
+Print Assumptions C10_armor_first_last_line.
